@@ -13,6 +13,7 @@ import (
 	"runtime"
 	"sort"
 	"strings"
+	"sync"
 	"sync/atomic"
 	"time"
 
@@ -57,6 +58,114 @@ type drv struct {
 	mutFt                              map[string]bool
 	openedRO                           bool
 	prog                               int64 // progress counter for the watchdog
+
+	// fault injection (c08)
+	plan       *faultPlan
+	matchSeen  int
+	injected   int
+	healed     bool
+	dirty      bool // a fault was injected since the last successful open
+	opCount    map[string]int
+	afterFault int
+	summary    func() map[string]interface{}
+	fmu        sync.Mutex
+}
+
+// faultPlan: fail the idx-th .. (idx+count-1)-th operation of (kind, file type); count 0 = until healed.
+type faultPlan struct {
+	kind  vt.OpKind
+	ft    storage.FileType
+	idx   int
+	count int
+	torn  bool
+}
+
+func parseFault(s string) *faultPlan {
+	if s == "" {
+		return nil
+	}
+	f := strings.Split(s, ":")
+	p := &faultPlan{}
+	for k := vt.OpCreate; k <= vt.OpGetMeta; k++ {
+		if k.String() == f[0] {
+			p.kind = k
+		}
+	}
+	switch f[1] {
+	case "journal":
+		p.ft = storage.TypeJournal
+	case "manifest":
+		p.ft = storage.TypeManifest
+	case "table":
+		p.ft = storage.TypeTable
+	case "temp":
+		p.ft = storage.TypeTemp
+	}
+	fmt.Sscan(f[2], &p.idx)
+	fmt.Sscan(f[3], &p.count)
+	if len(f) > 4 && f[4] == "torn" {
+		p.torn = true
+	}
+	return p
+}
+
+func (d *drv) hookFaults() {
+	d.opCount = map[string]int{}
+	d.stor.Fault = func(op *vt.Op) (error, int) {
+		d.fmu.Lock()
+		defer d.fmu.Unlock()
+		ft := op.Fd.Type
+		if op.Kind == vt.OpSetMeta {
+			ft = storage.TypeManifest
+		}
+		d.opCount[op.Kind.String()+":"+vt.FtName(ft)]++
+		p := d.plan
+		if p == nil || d.healed || op.Kind != p.kind || ft != p.ft {
+			return nil, -1
+		}
+		d.matchSeen++
+		if d.matchSeen >= p.idx && (p.count == 0 || d.matchSeen < p.idx+p.count) {
+			d.injected++
+			d.dirty = true
+			torn := -1
+			if p.torn && op.Kind == vt.OpWrite {
+				torn = len(op.Data) / 2
+			}
+			return vt.ErrInjected, torn
+		}
+		return nil, -1
+	}
+}
+
+func (d *drv) opCountCopy() map[string]int {
+	d.fmu.Lock()
+	defer d.fmu.Unlock()
+	m := map[string]int{}
+	for k, v := range d.opCount {
+		m[k] = v
+	}
+	return m
+}
+
+func (d *drv) heal(why string) {
+	d.fmu.Lock()
+	was := d.healed
+	d.healed = true
+	inj := d.injected
+	d.fmu.Unlock()
+	if !was {
+		d.tr.Emit(vt.Ev{"ev": "note", "what": why, "injected": inj})
+	}
+}
+
+// ename classifies an error for the trace; while a fault may still be echoing
+// (injected since the last successful open) unknown errors count as failures.
+func (d *drv) ename(err error) string {
+	e := errName(err)
+	if strings.HasPrefix(e, "other:") && d.dirty {
+		return "fail"
+	}
+	return e
 }
 
 // watchdog: a call that does not return within the limit is reported as a
@@ -69,6 +178,17 @@ func (d *drv) watchdog(limit time.Duration, sum func() map[string]interface{}) {
 		if p != last {
 			last, since = p, time.Now()
 			continue
+		}
+		if d.plan != nil && time.Since(since) > 1500*time.Millisecond {
+			d.fmu.Lock()
+			active := d.injected > 0 && !d.healed
+			d.fmu.Unlock()
+			if active {
+				// blocking while the storage keeps failing is allowed; stop the failures and keep waiting
+				d.heal("healed-by-watchdog")
+				since = time.Now()
+				continue
+			}
 		}
 		if time.Since(since) > limit {
 			buf := make([]byte, 1<<16)
@@ -235,12 +355,12 @@ func (d *drv) doPutDel() {
 	kb := d.arg(d.key(o.k))
 	if o.v == 0 {
 		err = d.db.Delete(kb.cur, d.wo())
-		d.emit(vt.Ev{"ev": "write", "ops": opsJSON(ops), "err": errName(err), "api": "delete"})
+		d.emit(vt.Ev{"ev": "write", "ops": opsJSON(ops), "err": d.ename(err), "api": "delete"})
 		d.after("delete", kb)
 	} else {
 		vb := d.arg(o.val)
 		err = d.db.Put(kb.cur, vb.cur, d.wo())
-		d.emit(vt.Ev{"ev": "write", "ops": opsJSON(ops), "err": errName(err), "api": "put"})
+		d.emit(vt.Ev{"ev": "write", "ops": opsJSON(ops), "err": d.ename(err), "api": "put"})
 		d.after("put", kb, vb)
 	}
 }
@@ -270,7 +390,7 @@ func (d *drv) doBatch() {
 	d.fillBatch(b, ops)
 	dump := append([]byte(nil), b.Dump()...)
 	err := d.db.Write(b, d.wo())
-	d.emit(vt.Ev{"ev": "write", "ops": opsJSON(ops), "err": errName(err), "api": "write", "big": b2i(big)})
+	d.emit(vt.Ev{"ev": "write", "ops": opsJSON(ops), "err": d.ename(err), "api": "write", "big": b2i(big)})
 	if d.poison {
 		// Write must not modify the batch, and must not keep it.
 		d.emit(vt.Ev{"ev": "intact", "what": "batch", "same": b2i(bytes.Equal(dump, b.Dump()))})
@@ -292,7 +412,7 @@ func (d *drv) valID(v []byte, err error) int {
 func (d *drv) doGet(k int) {
 	kb := d.arg(d.key(k))
 	v, err := d.db.Get(kb.cur, nil)
-	d.emit(vt.Ev{"ev": "get", "k": k, "err": errName(err), "v": d.valID(v, err)})
+	d.emit(vt.Ev{"ev": "get", "k": k, "err": d.ename(err), "v": d.valID(v, err)})
 	d.after("get", kb)
 	if d.poison {
 		for i := range v {
@@ -304,7 +424,7 @@ func (d *drv) doGet(k int) {
 func (d *drv) doHas(k int) {
 	kb := d.arg(d.key(k))
 	r, err := d.db.Has(kb.cur, nil)
-	d.emit(vt.Ev{"ev": "has", "k": k, "err": errName(err), "r": b2i(r)})
+	d.emit(vt.Ev{"ev": "has", "k": k, "err": d.ename(err), "r": b2i(r)})
 	d.after("has", kb)
 }
 
@@ -350,7 +470,7 @@ func (d *drv) randRange() (int, int) {
 func (d *drv) doCompact() {
 	lo, hi := d.randRange()
 	err := d.db.CompactRange(d.rangeOf(lo, hi))
-	d.emit(vt.Ev{"ev": "compact", "lo": lo, "hi": hi, "err": errName(err)})
+	d.emit(vt.Ev{"ev": "compact", "lo": lo, "hi": hi, "err": d.ename(err)})
 }
 
 func (d *drv) releaseAll() {
@@ -364,7 +484,7 @@ func (d *drv) releaseAll() {
 func (d *drv) doClose() {
 	d.grab()
 	err := d.db.Close()
-	d.emit(vt.Ev{"ev": "close", "err": errName(err)})
+	d.emit(vt.Ev{"ev": "close", "err": d.ename(err)})
 	d.closed = true
 	d.tx = nil
 }
@@ -379,13 +499,20 @@ func (d *drv) doReopen(ro bool) {
 		delete(d.snaps, h)
 	}
 	err := d.open(ro)
-	d.emit(vt.Ev{"ev": "reopen", "ro": b2i(ro), "err": errName(err)})
+	d.emit(vt.Ev{"ev": "reopen", "ro": b2i(ro), "err": d.ename(err)})
 	if err != nil {
-		for _, f := range d.stor.Files() {
-			fmt.Fprintf(os.Stderr, "  file %s-%d size %d\n", vt.FtName(f.Fd.Type), f.Fd.Num, f.Size)
-		}
-		d.fatal("reopen failed: %v", err)
+		// a reopen that fails is a finding of its own: the line is in the trace; stop here
+		d.finish()
 	}
+	d.dirty = false
+}
+
+// finish ends the run early, leaving the trace as evidence.
+func (d *drv) finish() {
+	d.tr.Close()
+	b, _ := json.Marshal(d.summary())
+	fmt.Println(string(b))
+	os.Exit(0)
 }
 
 func (d *drv) fatal(f string, a ...interface{}) {
@@ -400,7 +527,7 @@ func (d *drv) doSnap() {
 	s, err := d.db.GetSnapshot()
 	d.nextH++
 	h := d.nextH
-	d.emit(vt.Ev{"ev": "snap", "h": h, "err": errName(err)})
+	d.emit(vt.Ev{"ev": "snap", "h": h, "err": d.ename(err)})
 	if err == nil {
 		d.snaps[h] = s
 	}
@@ -417,10 +544,10 @@ func (d *drv) doSnapRead(h int, s *leveldb.Snapshot, k int) {
 	kb := d.arg(d.key(k))
 	if d.rng.Intn(3) == 0 {
 		r, err := s.Has(kb.cur, nil)
-		d.emit(vt.Ev{"ev": "snaphas", "h": h, "k": k, "err": errName(err), "r": b2i(r)})
+		d.emit(vt.Ev{"ev": "snaphas", "h": h, "k": k, "err": d.ename(err), "r": b2i(r)})
 	} else {
 		v, err := s.Get(kb.cur, nil)
-		d.emit(vt.Ev{"ev": "snapget", "h": h, "k": k, "err": errName(err), "v": d.valID(v, err)})
+		d.emit(vt.Ev{"ev": "snapget", "h": h, "k": k, "err": d.ename(err), "v": d.valID(v, err)})
 	}
 	d.after("snapget", kb)
 }
@@ -525,7 +652,7 @@ func (d *drv) doIterMove(h int, it iterator.Iterator) {
 		}
 	}
 	if err := it.Error(); err != nil && err != leveldb.ErrIterReleased {
-		d.emit(vt.Ev{"ev": "note", "what": "iter-error", "h": h, "err": errName(err)})
+		d.emit(vt.Ev{"ev": "note", "what": "iter-error", "h": h, "err": d.ename(err)})
 	}
 	d.emit(vt.Ev{"ev": "iter", "h": h, "mv": mv, "arg": arg, "ok": b2i(ok), "k": k, "v": v})
 }
@@ -558,7 +685,7 @@ func (d *drv) walk(h int, it iterator.Iterator, n int) {
 
 func (d *drv) doTxOpen() {
 	tx, err := d.db.OpenTransaction()
-	d.emit(vt.Ev{"ev": "txopen", "err": errName(err)})
+	d.emit(vt.Ev{"ev": "txopen", "err": d.ename(err)})
 	if err == nil {
 		d.tx = tx
 	}
@@ -591,7 +718,11 @@ func (d *drv) doTxWrite() {
 			}
 		}
 	}
-	d.emit(vt.Ev{"ev": "txwrite", "ops": opsJSON(ops), "err": errName(err)})
+	d.emit(vt.Ev{"ev": "txwrite", "ops": opsJSON(ops), "err": d.ename(err)})
+	if err != nil {
+		// a failed transaction write leaves the transaction in an unknown state: discard it
+		d.doTxEnd(false)
+	}
 }
 
 func (d *drv) debugDump() {
@@ -618,10 +749,10 @@ func (d *drv) doTxRead(k int) {
 	kb := d.arg(d.key(k))
 	if d.rng.Intn(3) == 0 {
 		r, err := d.tx.Has(kb.cur, nil)
-		d.emit(vt.Ev{"ev": "txhas", "k": k, "err": errName(err), "r": b2i(r)})
+		d.emit(vt.Ev{"ev": "txhas", "k": k, "err": d.ename(err), "r": b2i(r)})
 	} else {
 		v, err := d.tx.Get(kb.cur, nil)
-		d.emit(vt.Ev{"ev": "txget", "k": k, "err": errName(err), "v": d.valID(v, err)})
+		d.emit(vt.Ev{"ev": "txget", "k": k, "err": d.ename(err), "v": d.valID(v, err)})
 		if d.poison {
 			for i := range v {
 				v[i] = 0xAA
@@ -635,7 +766,7 @@ func (d *drv) doTxEnd(commit bool) {
 	tx := d.tx
 	if commit {
 		err := tx.Commit()
-		d.emit(vt.Ev{"ev": "txcommit", "err": errName(err)})
+		d.emit(vt.Ev{"ev": "txcommit", "err": d.ename(err)})
 		if err != nil {
 			tx.Discard()
 			d.emit(vt.Ev{"ev": "txdiscard"})
@@ -649,7 +780,7 @@ func (d *drv) doTxEnd(commit bool) {
 	if d.rng.Intn(2) == 0 {
 		kb := d.key(d.rng.Intn(d.u.N()))
 		v, err := tx.Get(kb, nil)
-		d.emit(vt.Ev{"ev": "txget", "k": d.u.Rank(kb), "err": errName(err), "v": d.valID(v, err)})
+		d.emit(vt.Ev{"ev": "txget", "k": d.u.Rank(kb), "err": d.ename(err), "v": d.valID(v, err)})
 	}
 }
 
@@ -705,7 +836,7 @@ func (d *drv) doOpen2() {
 	o := *d.row.O
 	o.ReadOnly = d.rng.Intn(2) == 0
 	db2, err := leveldb.Open(d.stor, &o)
-	e := errName(err)
+	e := d.ename(err)
 	if err == storage.ErrLocked {
 		e = "locked"
 	}
@@ -729,12 +860,12 @@ func (d *drv) doMisc() {
 		api = "SizeOf"
 		_, err = d.db.SizeOf([]util.Range{d.rangeOf(0, d.u.N())})
 	}
-	d.emit(vt.Ev{"ev": "misc", "api": api, "err": errName(err)})
+	d.emit(vt.Ev{"ev": "misc", "api": api, "err": d.ename(err)})
 }
 
 func (d *drv) doSetRO() {
 	err := d.db.SetReadOnly()
-	d.emit(vt.Ev{"ev": "setro", "err": errName(err)})
+	d.emit(vt.Ev{"ev": "setro", "err": d.ename(err)})
 	if err == nil {
 		d.ro = true
 	}
@@ -866,6 +997,94 @@ func (d *drv) stepC18() {
 	}
 }
 
+// ---- storage faults (C08) ----
+
+func (d *drv) stepC08() {
+	n := d.u.N()
+	if d.injected > 0 && !d.healed {
+		d.afterFault++
+		if d.afterFault > 4+d.rng.Intn(6) {
+			// the failures stop; the DB must go on serving (or fail fast), and a reopen must lose nothing acknowledged
+			d.heal("healed")
+			for i := 0; i < 3+d.rng.Intn(4); i++ {
+				d.c08op()
+			}
+			d.readAll()
+			if d.tx != nil {
+				d.doTxEnd(false)
+			}
+			d.doReopen(false)
+			d.readAll()
+			return
+		}
+	}
+	_ = n
+	d.c08op()
+}
+
+func (d *drv) c08op() {
+	r := d.rng.Intn(1000)
+	n := d.u.N()
+	if d.tx != nil {
+		switch {
+		case r < 450:
+			d.doTxWrite()
+		case r < 650:
+			d.doTxRead(d.rng.Intn(n))
+		case r < 850:
+			d.doTxEnd(true)
+		default:
+			d.doTxEnd(false)
+		}
+		return
+	}
+	switch {
+	case r < 480:
+		d.writeSome()
+	case r < 800:
+		if d.rng.Intn(2) == 0 {
+			d.doGet(d.rng.Intn(n))
+		} else {
+			d.doHas(d.rng.Intn(n))
+		}
+	case r < 830:
+		d.doCompact()
+	case r < 850:
+		d.readAll()
+	case r < 870:
+		d.doReopenF()
+	default:
+		d.doTxOpen()
+	}
+}
+
+// doReopenF: close and open again while faults may still be active; retried after healing.
+func (d *drv) doReopenF() {
+	d.releaseAll()
+	if !d.closed {
+		d.doClose()
+	}
+	for h := range d.snaps {
+		delete(d.snaps, h)
+	}
+	for try := 0; try < 3; try++ {
+		err := d.open(false)
+		d.emit(vt.Ev{"ev": "reopen", "ro": 0, "err": d.ename(err)})
+		if err == nil {
+			if d.healed || d.plan == nil {
+				d.dirty = false
+			}
+			return
+		}
+		if d.ename(err) != "fail" {
+			d.fatal("reopen failed without a fault: %v", err)
+		}
+		d.stor.ForceUnlock()
+		d.heal("healed-for-reopen")
+	}
+	d.fatal("reopen keeps failing after the faults stopped")
+}
+
 // ---- the programs ----
 
 func (d *drv) writeSome() {
@@ -880,6 +1099,10 @@ func (d *drv) writeSome() {
 func (d *drv) step() {
 	if d.mode == "c18" {
 		d.stepC18()
+		return
+	}
+	if d.mode == "c08" {
+		d.stepC08()
 		return
 	}
 	r := d.rng.Intn(1000)
@@ -1053,6 +1276,7 @@ func main() {
 	nkeys := flag.Int("nkeys", 24, "distinct keys (<= 64)")
 	cmpKind := flag.Int("cmp", -1, "comparer kind (-1: by seed)")
 	hang := flag.Int("hang", 30, "seconds without progress after which a call counts as hung")
+	fault := flag.String("fault", "", "kind:filetype:index:count[:torn] - fail that storage operation (c08)")
 	flag.Parse()
 
 	rng := rand.New(rand.NewSource(*seed))
@@ -1083,13 +1307,18 @@ func main() {
 		d.fatal("open: %v", err)
 	}
 	start := time.Now()
-	summary := func() map[string]interface{} {
+	d.summary = func() map[string]interface{} {
 		return map[string]interface{}{"mode": *mode, "seed": *seed, "events": tr.N(), "row": row.Desc,
-			"stats": d.stats, "comp": d.comp, "wall_s": time.Since(start).Seconds(), "nkeys": d.u.N()}
+			"stats": d.stats, "comp": d.comp, "wall_s": time.Since(start).Seconds(), "nkeys": d.u.N(),
+			"opcount": d.opCountCopy(), "injected": d.injected, "fault": *fault}
 	}
-	go d.watchdog(time.Duration(*hang)*time.Second, summary)
+	go d.watchdog(time.Duration(*hang)*time.Second, d.summary)
 	if *mode == "c18" {
 		d.hookStor()
+	}
+	if *mode == "c08" {
+		d.plan = parseFault(*fault)
+		d.hookFaults()
 	}
 	for i := 0; i < *n; i++ {
 		if d.closed && *mode != "c18" {
@@ -1125,6 +1354,6 @@ func main() {
 	d.grab()
 	d.db.Close()
 	tr.Close()
-	b, _ := json.Marshal(summary())
+	b, _ := json.Marshal(d.summary())
 	fmt.Println(string(b))
 }
